@@ -66,6 +66,10 @@ EXPLANATION += (
     ' Round 10: memo tables of the election and the taxonomy class are keyed by everything their values are computed from, early-exit form and full access paths included (R-MEMO/key-complete).'
 )
 
+EXPLANATION += (
+    ' Round 11: np.ptp and further reducers are typed along their axis.'
+)
+
 RULE_TEXT = (
     "one obligation per kernel function x configuration (declared type, "
     "row independence) and per index identity")
